@@ -73,7 +73,9 @@ _base_ctx = []
 def engine(**opts):
     key = tuple(sorted(opts.items()))
     if key not in _engines:
-        _engines[key] = yaql.YaqlFactory().create(options={"yaql." + k: v for k, v in opts.items()})
+        if None not in _engines:          # one parser; YaqlEngine.copy gives an engine with other options
+            _engines[None] = yaql.YaqlFactory().create()
+        _engines[key] = _engines[None].copy({"yaql." + k: v for k, v in opts.items()})
     return _engines[key]
 
 
@@ -229,23 +231,25 @@ def gen_shape(rng, N, depth, wide_level, level=0):
     return (kind, items)
 
 
-def build(spec, srcs):
+def build(spec, srcs, host=False):
+    """host=True: the value is handed in as host data (convert_input_data turns a frozenset
+    into a lazy map, so only mutable sets are used there)."""
     t = spec[0]
     if t == "null":
         return None
     if t in ("int", "str"):
         return spec[1]
     if t == "tuple":
-        return tuple(build(x, srcs) for x in spec[1])
+        return tuple(build(x, srcs, host) for x in spec[1])
     if t == "list":
-        return [build(x, srcs) for x in spec[1]]
+        return [build(x, srcs, host) for x in spec[1]]
     if t == "dict":
-        d = {build(k, srcs): build(v, srcs) for k, v in spec[1]}
+        d = {build(k, srcs, host): build(v, srcs, host) for k, v in spec[1]}
         return utils.FrozenDict(d) if spec[2] else d
     if t == "set":
-        return frozenset(spec[1]) if spec[2] else set(spec[1])
+        return frozenset(spec[1]) if (spec[2] and not host) else set(spec[1])
     if t == "iter":
-        s = Src([build(x, srcs) for x in spec[1]], spec[2], cap=CAP)
+        s = Src([build(x, srcs, host) for x in spec[1]], spec[2], cap=CAP)
         srcs.append(s)
         return s
     raise ValueError(spec)
@@ -265,7 +269,10 @@ def spec_term(spec, lists_as_tuples=False):
     if t == "dict":
         return "(VDict %s)" % gal.lst(gal.pair(spec_term(k), spec_term(v, lists_as_tuples)) for k, v in spec[1])
     if t == "set":      # printed in the iteration order of the very set the implementation walks
-        order = list(frozenset(spec[1])) if spec[2] else list(set(spec[1]))
+        if lists_as_tuples:      # host data: convert_input_data rebuilds a mutable set as a frozenset
+            order = list(frozenset(t for t in set(spec[1])))
+        else:
+            order = list(frozenset(spec[1])) if spec[2] else list(set(spec[1]))
         return "(VSet %s)" % gal.lst("(VInt %s)" % gal.z(x) for x in order)
     if t == "iter":
         return "(VIter %s %s)" % (gal.lst(spec_term(x, lists_as_tuples) for x in spec[1]), gal.boolean(spec[2]))
@@ -329,7 +336,7 @@ FINAL_ROUTES = ["convert_output_data", "#finalize", "engine"]
 
 def run_final(N, t2l, s2l, spec, route):
     srcs = []
-    obj = build(spec, srcs)
+    obj = build(spec, srcs, host=(route == "engine"))
     eng = engine(limitIterators=N, convertTuplesToLists=t2l, convertSetsToLists=s2l)
     out, val = "Ok", None
     try:
@@ -793,6 +800,7 @@ def o_sweep(run, deep):
     results = pool.run([{k: v for k, v in t.items() if k != "_row"} for t in tasks])
     ncalls = 0
     pulled = 0
+    never, unmatched = [], []
     for t in tasks:
         res = results.get(t["id"])
         row, N = t["_row"], t["N"]
@@ -807,6 +815,10 @@ def o_sweep(run, deep):
             continue
         calls = res.get("calls", [])
         bad = None
+        if not any(c["pulls"] > 0 for c in calls):
+            never.append("%s(%s)%s" % (row["payload"], row["key"], "/lambda" if row["mode"] == "lambda" else ""))
+        if calls and all(c["outcome"].startswith("Other:NoMatching") or c["outcome"].startswith("Other:LookupError") for c in calls):
+            unmatched.append("%s(%s)" % (row["payload"], row["key"]))
         for c in calls:
             ncalls += 1
             run.cov["evaluations"] += 1
@@ -828,6 +840,12 @@ def o_sweep(run, deep):
                       "required": "at most %d pulls and termination" % (N + 1),
                       "replay_task": {k: v for k, v in t.items() if k != "_row"}})
     run.count("sweep:positions", len(tasks))
+    run.cov["uncovered"].append({"what": "sweep positions at which no variant ever pulled from the source (the value is only "
+                                         "passed on, compared, stored or rejected there)", "count": len(set(never)),
+                                 "parameters": sorted(set(never))})
+    if unmatched:
+        run.cov["uncovered"].append({"what": "sweep positions whose function never matched the corpus arguments",
+                                     "count": len(set(unmatched)), "parameters": sorted(set(unmatched))})
     run.note("sweep: %d positions x N in %s, %d calls (%d pulled from the source), %d workers killed, %.1fs"
              % (len(tasks), Ns, ncalls, pulled, pool.killed, time.time() - t0))
 
@@ -860,7 +878,8 @@ def o_expressions(run, deep, corpus):
         if c.get("kind") == "expr":
             k += 1
             t = {"kind": "expr", "id": "corpus%d" % k, "expr": c["expr"], "N": c.get("N"), "Q": c.get("Q"),
-                 "ctx": c.get("ctx"), "trace": bool(c.get("Q")), "seconds": 5}
+                 "ctx": c.get("ctx"), "trace": bool(c.get("Q")), "raw": bool(c.get("Q")),
+                 "record_args": bool(c.get("Q")), "seconds": 5}
             tasks.append(t)
             info[t["id"]] = c
     for e in LIMIT_EXPRS:
@@ -918,7 +937,8 @@ def check_quota_result(run, t, res, c):
         data["required"] = "no value above the quota is passed on to a function"
         run.fail("violation", "an over-quota value was passed on to %s" % res["args_over_quota"][0][0], data)
     if out == "Ok" and res.get("inner_size") and res["inner_size"] > Q:
-        run.count("quota:frozen-dict-blind")
+        data["required"] = "MemoryQuotaExceededException instead of a dict whose storage takes %d bytes" % res["inner_size"]
+        run.fail("violation", "evaluation of `%s` returned a dict whose own storage exceeds the quota" % generalise(t["expr"]), data)
 
 
 def o_quota(run, deep):
@@ -955,6 +975,11 @@ def o_quota(run, deep):
         ("$s.replace('a', $s).replace('a', $s)", {"s": ["str", 6, 97]}),
         ("range(%(k)d).aggregate($1 + $l, [])", {"l": ["tuple", 3]}),
         ("range(%(k)d).toList()", {}),
+        ("range(%(k)d).aggregate($1.set($2, $2), {})", {}),
+        ("range(%(k)d).aggregate($1 + {$2 => $s}, {})", {"s": ["str", 3, 97]}),
+        ("range(%(k)d).toDict($, $)", {}),
+        ("dict(range(%(k)d).select([$, $]))", {}),
+        ("range(%(k)d).aggregate($1.set($2, $2), {}).len()", {}),
         ("range(%(k)d).toList() + range(%(k)d).toList()", {}),
         ("range(%(k)d).select($s).toList()", {"s": ["str", 4, 97]}),
         ("range(%(k)d).toSet()", {}),
